@@ -260,7 +260,9 @@ class Printer(PrinterBase):
             )
             return f"{typ}(complex({re}, {im}))"
         s = str(value)
-        s = {"inf": "numpy.inf", "-inf": "-numpy.inf", "nan": "numpy.nan"}.get(s, s)
+        if isinstance(value, (float, numpy.floating)):
+            # only values: an argument named inf or nan is cast as it is
+            s = {"inf": "numpy.inf", "-inf": "-numpy.inf", "nan": "numpy.nan"}.get(s, s)
         return f"{typ}({s})"
 
     def make_argument(self, arg):
